@@ -2,7 +2,7 @@
 from checks import textcomp, rtcomp, rtxcomp
 
 LEAN_TARGETS = ["LyModel.Props.C12", "LyModel.XmlTree.OpaqDoc", "LyModel.XmlTree.OpaqOk", "LyModel.XmlTree.OpaqRoundtrip",
-                "LyModel.XmlTree.OpaqCheck", "LyModel.XmlTree.OpaqFaithful", "LyModel.XmlTree.DataCheck", "LyModel.XmlTree.DataFaithful", "LyModel.XmlTree.SpecScope", "LyModel.XmlTree.ScopeFaithful", "LyModel.JsonTree.MetaView"]
+                "LyModel.XmlTree.OpaqCheck", "LyModel.XmlTree.OpaqFaithful", "LyModel.XmlTree.DataCheck", "LyModel.XmlTree.DataFaithful", "LyModel.XmlTree.SpecScope", "LyModel.XmlTree.ScopeFaithful", "LyModel.XmlTree.SpecScopeLemmas", "LyModel.JsonTree.MetaView"]
 AUDIT = ["Audit/C12.lean", "Audit/C12Fn.lean"]
 GENERATED = ["XmlEsc", "JsonEsc", "JsonTyping", "XmlNsFixes"]
 LEAN_TARGETS += ["LyModel.Props.C05Fn"]; GENERATED += ["FnUtf8"]     # functions translated from the C source (tools/c2lean.py), bridged in lean/LyModel/Bridge
